@@ -398,3 +398,78 @@ Proof.
   intros ND Hx. destruct (depth_total_f f x Hx) as (d & Hd). exists d. split; [exact Hd|].
   intros d' Hd'. eapply depth_f_fun; eauto.
 Qed.
+
+(* ------------------------------------------------------------------ *)
+(* the tight bound: the loop of _iter_level runs [height] times         *)
+(* ------------------------------------------------------------------ *)
+
+(* Tree.calc_height / Node.calc_height of the pseudo node above a forest *)
+Definition forest_height (f : forest) : nat :=
+  match f with [] => 0 | _ => S (list_max (map height f)) end.
+
+Lemma height_rch t : forest_height (rch t) = height t.
+Proof. destruct t as [id i [|c r]]; reflexivity. Qed.
+
+Lemma height_le_max c ch : In c ch -> height c <= list_max (map height ch).
+Proof.
+  intros H. pose proof (proj1 (list_max_le (map height ch) _) (le_n _)) as F.
+  rewrite Forall_forall in F. apply F. now apply in_map.
+Qed.
+
+Lemma dpre_depth_height : forall t d0 k a, In (k, a) (dpre d0 t) -> k <= d0 + height t.
+Proof.
+  induction t as [id i ch IH] using rt_ind'. intros d0 k a H. cbn [dpre] in H.
+  destruct H as [H|H]; [inversion H; lia|].
+  apply in_flat_map in H as (c & Hc & H). rewrite Forall_forall in IH. apply (IH c Hc) in H.
+  pose proof (height_le_max c ch Hc). destruct ch as [|c0 r]; [destruct Hc|].
+  cbn [height]. lia.
+Qed.
+
+Lemma level_of_above_height f k : forest_height f <= k -> level_of k f = [].
+Proof.
+  intros Hk. unfold level_of. rewrite filter_none; [reflexivity|].
+  intros [d x] Hin. unfold at_depth. cbn [fst]. apply Nat.eqb_neq.
+  apply in_flat_map in Hin as (t & Ht & Hin). apply dpre_depth_height in Hin.
+  pose proof (height_le_max t f Ht). destruct f as [|t0 r]; [destruct Ht|]. cbn [forest_height] in Hk. lia.
+Qed.
+
+Lemma levels_spec_more_gen rv tg f n k :
+  (forall j, n <= j -> level_of j f = []) -> levels_spec rv tg f (n + k) = levels_spec rv tg f n.
+Proof.
+  intros H. unfold levels_spec. rewrite seq_app, map_app, concat_app. cbn [plus].
+  rewrite <- (app_nil_r (concat (map _ (seq 0 n)))) at 2. f_equal.
+  assert (Hall : forall j', In j' (seq n k) -> level_of j' f = []).
+  { intros j' Hj. apply in_seq in Hj. apply H. lia. }
+  induction (seq n k) as [|a l IHl]; [reflexivity|].
+  cbn [map concat]. rewrite (Hall a (or_introl eq_refl)), dir_nil. cbn [app].
+  apply IHl. intros j' Hj. apply Hall. now right.
+Qed.
+
+Lemma size_le_sum c ch : In c ch -> size c <= list_sum (map size ch).
+Proof.
+  induction ch as [|a r IH]; intros H; [destruct H|].
+  change (list_sum (map size (a :: r))) with (size a + list_sum (map size r)).
+  destruct H as [->|H]; [lia|]. specialize (IH H). lia.
+Qed.
+
+Lemma height_lt_size : forall t, height t < size t.
+Proof.
+  induction t as [id i ch IH] using rt_ind'. destruct ch as [|c r]; [cbn; lia|].
+  cbn [height size]. apply -> Nat.succ_lt_mono.
+  apply list_max_lt; [discriminate|]. apply Forall_forall. intros k Hk.
+  apply in_map_iff in Hk as (x & <- & Hx). rewrite Forall_forall in IH.
+  pose proof (IH x Hx). pose proof (size_le_sum x (c :: r) Hx). lia.
+Qed.
+
+(* [height t] loop iterations list the whole branch below t; Node.calc_height is 0 for a leaf *)
+Theorem iter_level_height_fuel t rv tg k :
+  iter_level (height t + k) rv tg (rch t) = iter_level_n t rv tg.
+Proof.
+  unfold iter_level_n, level_fuel. rewrite !iter_level_levels.
+  assert (H : forall j, height t <= j -> level_of j (rch t) = []).
+  { intros j Hj. apply level_of_above_height. now rewrite height_rch. }
+  rewrite (levels_spec_more_gen rv tg (rch t) (height t) k H).
+  pose proof (height_lt_size t) as Hs.
+  replace (size t) with (height t + (size t - height t)) by lia.
+  now rewrite (levels_spec_more_gen rv tg (rch t) (height t) _ H).
+Qed.
